@@ -500,6 +500,38 @@ def gen_dirs_fuzz(rng, tier):
     return cases
 
 
+POGO_HIST_OPS = ["next", "next", "nth:0", "nth:1", "nth:2", "nth:5", "hint", "count", "clone", "nth:0xffffffffffffffff", "nth:0x7fffffffffffffff"]
+
+
+def gen_pogo_hist(rng, tier):
+    """call histories over {next, nth k, size_hint, count, clone} on the POGO record iterator (C18 / C15): the model
+    runs `pgoRunOps` (PgoIter::next and the provided methods over it), the specification the same calls on the plain
+    list of the records; well-formed blobs, cut-off records, names without terminator, sizes that are not dwords"""
+    cases = []
+    two = b"LTCG" + struct.pack("<II", 0x1000, 16) + pad4(b".text\0") + struct.pack("<II", 0x2000, 32) + pad4(b".rdata$zz\0") + struct.pack("<II", 0x3000, 1) + pad4(b"\0")
+    core = ["next", "nth:1", "count", "clone"]
+    for a in core:
+        for b in core:
+            for c in core:
+                cases.append(["pogo_hist %s %s" % (two.hex(), ",".join([a, b, c, "hint", "next", "next", "count"]))])
+    for cut in range(0, len(two) + 1):
+        cases.append(["pogo_hist %s %s" % (two[:cut].hex() or "-", "count,clone,next,next,nth:0,next")])
+    n = 300 if tier == "quick" else 10000
+    for _ in range(n):
+        blob = pogo_blob(rng)
+        if rng.random() < 0.15:
+            blob = blob[:rng.randrange(0, len(blob) + 1)]
+        elif rng.random() < 0.1:
+            b = bytearray(blob)
+            for _ in range(rng.choice([1, 2, 4])):
+                if b:
+                    b[rng.randrange(len(b))] = rng.choice([0, 0, 1, 0x41, 0xFF])
+            blob = bytes(b)
+        k = rng.choice([1, 2, 4, 8, 12])
+        cases.append(["pogo_hist %s %s" % (blob.hex() or "-", ",".join(rng.choice(POGO_HIST_OPS) for _ in range(k)))])
+    return cases
+
+
 def lean_example_images():
     """the byte arrays of lean/PeliteModel/Lemmas/DirsExamples.lean: the images of the non-vacuity examples of
     Thm/C15.lean (so that what the examples say about the model is also compared with the library)"""
